@@ -201,6 +201,31 @@ def run(ctx):
                                                       for a, p in st if not p),
                 "%s|cancelled-tested" % q, "", "process spawned without testing `cancelled`", g, spn[0] if spn else None)
 
+    r = rep.rule("R-CANCEL-CLOSES-GROUP",
+                 "cancelAllJobs of both queues marks the queue cancelled and closes the process group while holding the group mutex "
+                 "(the gate spawnProcess re-checks under that mutex), and only then signals the running children; the kill-escalation "
+                 "thread is started afterwards", floor=4)
+    for q in ("LaneBasedExecutionQueue", "SerialExecutionQueue"):
+        g = prog.fn(q + "::cancelAllJobs")
+        lsq = LockSets(g)
+        cl = g.calls("ProcessGroup::close")
+        sg = g.calls("ProcessGroup::signalAll")
+        setc = [n for n in g.nodes if (n.get("k") == "bin" and n["op"] == "=" or n.get("k") == "call" and n.get("op") == "=") and
+                expr_str(core(n.child("l") if n.get("k") == "bin" else n.child("obj"))) == "cancelled"]
+        ok = len(cl) == 1 and "spawnedProcesses.mutex" in (lsq.held_at_node(cl[0]) or set()) and expr_str(core(cl[0].child("obj"))) == "spawnedProcesses"
+        r.check(ok, "%s::cancelAllJobs|group-closed-under-its-mutex" % q, "", "cancellation does not close the process group under the group mutex: a lane "
+                "that passed the `cancelled` test can still spawn after cancellation", g)
+        ok = len(setc) == 1 and bool(cl) and "spawnedProcesses.mutex" in (lsq.held_at_node(setc[0]) or set())
+        r.check(ok, "%s::cancelAllJobs|cancelled-set-with-group-lock" % q, "", "`cancelled` is not set in the critical section that closes the group", g)
+        ok = len(sg) == 1 and bool(cl) and cfg.dominated_by(g, cfg.pos_of(g, sg[0]), lambda p, e, c_=cl[0]: cfg.elem_node(g, e) is c_)[0] and \
+            "spawnedProcesses.mutex" not in (lsq.held_at_node(sg[0]) or set()) and core(arg_nodes(sg[0])[0]).get("v") == 2
+        r.check(ok, "%s::cancelAllJobs|close-then-sigint" % q, "", "children are not signalled with SIGINT after the group was closed (or signalled while holding its mutex)", g)
+    pg_close = prog.fn("ProcessGroup::close")
+    pg_isclosed = prog.fn("ProcessGroup::isClosed")
+    ok = any(n.get("k") == "bin" and n["op"] == "=" and expr_str(n.child("l")) == "closed" and core(n.child("r")).get("v") is True for n in pg_close.nodes) and \
+        any(n.get("k") == "return" and expr_str(core(n.child("e"))) == "closed" for n in pg_isclosed.nodes)
+    r.check(ok, "ProcessGroup|close-sets-what-isClosed-reads", "", "close()/isClosed() do not write/read the same flag", pg_close)
+
     # ---------------------------------------------------------------- lockset of queue state
     r = rep.rule("R-QUEUE-LOCKSET", "queue state is accessed only under its mutex (writes always; reads unless exempt)", floor=15)
     tables = [
@@ -524,6 +549,13 @@ VARIANTS = [
     dict(name="drain-break-without-error", file="lib/Basic/Subprocess.cpp",
          old="    if (control.shouldRelease()) {", new="    if (readfds[0].events == 0) break;\n    if (control.shouldRelease()) {",
          expect=("R-PROC-ORDER", "drain-before-reap")),
+    dict(name="cancel-does-not-close-group", file="lib/Basic/LaneBasedExecutionQueue.cpp",
+         old="      std::lock_guard<std::mutex> guard(spawnedProcesses.mutex);\n      if (cancelled) return;\n      cancelled = true;\n      spawnedProcesses.close();\n      readyJobsCondition.notify_all();",
+         new="      if (cancelled) return;\n      cancelled = true;\n      readyJobsCondition.notify_all();", expect=("R-CANCEL-CLOSES-GROUP", "LaneBasedExecutionQueue")),
+    dict(name="serial-cancel-signals-before-close", file="lib/Basic/SerialQueue.cpp",
+         old="      cancelled = true;\n      spawnedProcesses.close();\n    }\n\n    spawnedProcesses.signalAll(SIGINT);",
+         new="      cancelled = true;\n    }\n\n    spawnedProcesses.signalAll(SIGINT);\n    { std::lock_guard<std::mutex> guard(spawnedProcesses.mutex); spawnedProcesses.close(); }",
+         expect=("R-CANCEL-CLOSES-GROUP", "SerialExecutionQueue")),
     dict(name="benign-completion-via-local", file="lib/Basic/Subprocess.cpp",
          old="    auto result = wasCancelled ? ProcessResult::makeCancelled() : ProcessResult::makeFailed();\n    completionFn(result);",
          new="    auto result = wasCancelled ? ProcessResult::makeCancelled() : ProcessResult::makeFailed();\n    auto& r2 = result;\n    completionFn(r2);",
